@@ -182,6 +182,30 @@ def all_unordered_labellings(B):
     yield from rec(0, base)
 
 
+def check_output_edit(ctx, rng, case, B, maps):
+    """History: the species mapping of the SAME output object is edited in place into another valid reconciliation
+    (the mapping is a plain dict), and the evaluator is read again: events and costs must follow."""
+    if len(maps) < 2:
+        return
+    m1, m2 = rng.sample(maps, 2)
+    out = B.output(m1)
+    try:
+        first = bridge.num(out.cost())
+        [out.node_event(B.gnode[v]) for v in B.G.nodes]
+        for v, s in m2.items():
+            out.object_species[B.gnode[v]] = B.snode[s]
+        events = {v: out.node_event(B.gnode[v]).name for v in B.G.nodes}
+        cost2 = bridge.num(out.cost())
+    except Exception as exc:  # noqa: BLE001
+        ctx.viol("C06.total", dict(case, mapping={str(k): v for k, v in m2.items()}), f"evaluator raised after an in-place edit of the mapping: {type(exc).__name__}: {exc}")
+        return
+    ctx.count("evaluations")
+    ctx.count("mon.after_mapping_edit")
+    full = dict(case, mapping={str(k): v for k, v in m2.items()}, history=f"same output object, mapping edited in place from {sorted(m1.items())}")
+    for mon, msg in judge(B, m2, None, True, {"events": events, "cost": cost2}):
+        ctx.viol(f"C06.{mon}", full, msg + " (after an in-place edit of the mapping of the same output object)")
+
+
 def check_default_costs(ctx, rng):
     """Inputs built WITHOUT an explicit cost table use the documented defaults (speciation 0, everything else 1) - also
     after the cost table of ANOTHER default-cost input was tuned in place (the tables must not be shared)."""
@@ -309,6 +333,7 @@ def run(ctx, spec):
                 exts = [label.one_extension([tuple(s) for s in ordered_syn.values()], rng) for _ in range(3)]
             else:
                 exts = label.linear_extensions([tuple(s) for s in ordered_syn.values()])
+            check_output_edit(ctx, rng, case, B, maps)
             for m in rng.sample(maps, min(30, len(maps))):
                 check_one(ctx, case, B, m)
                 for _ in range(2):
